@@ -155,6 +155,29 @@ Build4(segs, lang) ==
      \o [i \in 1..sc |-> ro(i)]
      \o arrs
 
+\* The same plan with the explicit arrays laid out differently: the format text locates a segment's glyph
+\* ids only through the address arithmetic of idRangeOffset, so the arrays may be stored in any order
+\* ("rev": reverse segment order) and two segments may use the same words ("share": equal arrays stored once).
+Uniq4(s) == FoldLeft(LAMBDA acc, y : IF \E i \in 1..Len(acc) : acc[i] = y THEN acc ELSE Append(acc, y), <<>>, s)
+Build4L(segs, lang, layout) ==
+  LET sc   == Len(segs)
+      idx  == SelectSeq(RangeSeq(1, sc), LAMBDA i : segs[i].arr # <<>>)
+      ord  == IF layout = "rev" THEN Reverse(idx) ELSE idx
+      all  == [j \in 1..Len(ord) |-> segs[ord[j]].arr]
+      st   == IF layout = "share" THEN Uniq4(all) ELSE all
+      at(a) == LET j == CHOOSE j \in 1..Len(st) : st[j] = a /\ \A q \in 1..j - 1 : st[q] # a
+               IN FoldLeft(LAMBDA acc, q : acc + Len(st[q]), 0, RangeSeq(1, j - 1))
+      ro(i) == IF segs[i].arr = <<>> THEN 0 ELSE 2 * ((sc - (i - 1)) + at(segs[i].arr))
+      arrs == FoldLeft(LAMBDA acc, a : acc \o a, <<>>, st)
+      k    == Log2Floor(sc)
+      n    == 8 + 4 * sc + Len(arrs)
+  IN <<4, 2 * n, lang, 2 * sc, 2 * (2^k), k, 2 * sc - 2 * (2^k)>>
+     \o [i \in 1..sc |-> segs[i].e] \o <<0>>
+     \o [i \in 1..sc |-> segs[i].s]
+     \o [i \in 1..sc |-> segs[i].d]
+     \o [i \in 1..sc |-> ro(i)]
+     \o arrs
+
 \* maximal runs of consecutive mapped codes below MaxCode (p non-zero map)
 RunsP(p) ==
   FoldLeft(LAMBDA acc, x :
